@@ -287,6 +287,26 @@ type world struct {
 	tags   int
 	failed map[string]bool
 	timed  bool
+	ctls   []ctlSub // every ack/clear request submitted
+}
+
+// ctlSub is an ack or clear request as submitted: on which call, for which message seqno, stamped with which epoch.
+type ctlSub struct {
+	call int
+	kind string
+	n    uint64
+	seq  uint64
+}
+
+// stamped: the partner of s submitted an ack/clear of message n stamped with epoch ep.
+func (w *world) stamped(s *scall, kind string, n, ep uint64) bool {
+	for _, c := range w.ctls {
+		from := w.scalls[c.call]
+		if c.kind == kind && c.n == n && c.seq == ep && from.valid && from.src == s.dst && from.dst == s.src {
+			return true
+		}
+	}
+	return false
 }
 
 func (w *world) pidx(s string) int {
@@ -499,6 +519,8 @@ func (w *world) listenCancel(l *lcall) {
 }
 
 type reqSpec struct {
+	ctl  string // "ack" / "clear" for control requests
+	n    uint64
 	term string
 	desc string
 	req  *signaling.SessionRequest // nil = close the stream (Recv error)
@@ -560,6 +582,9 @@ func (w *world) sessReq(s *scall, seq uint64, r reqSpec) {
 		if r.mi.kind == "good" {
 			s.lastGood = r.mi
 		}
+	}
+	if r.ctl != "" {
+		w.ctls = append(w.ctls, ctlSub{call: s.id, kind: r.ctl, n: r.n, seq: seq})
 	}
 	before := w.srv.VerifState().Fingerprint()
 	ep, had := w.epochOf(s)
@@ -938,11 +963,11 @@ func (w *world) rSend(mi *minfo) reqSpec {
 		req: &signaling.SessionRequest{Body: &signaling.SessionRequest_SendMsg{SendMsg: mi.msg}}, mi: mi}
 }
 func rAck(n uint64) reqSpec {
-	return reqSpec{term: hx.App("RAck", nat(int(n))), desc: fmt.Sprintf("ack %d", n),
+	return reqSpec{ctl: "ack", n: n, term: hx.App("RAck", nat(int(n))), desc: fmt.Sprintf("ack %d", n),
 		req: &signaling.SessionRequest{Body: &signaling.SessionRequest_AckMsg{AckMsg: n}}}
 }
 func rClear(n uint64) reqSpec {
-	return reqSpec{term: hx.App("RClear", nat(int(n))), desc: fmt.Sprintf("clear %d", n),
+	return reqSpec{ctl: "clear", n: n, term: hx.App("RClear", nat(int(n))), desc: fmt.Sprintf("clear %d", n),
 		req: &signaling.SessionRequest{Body: &signaling.SessionRequest_ClearMsg{ClearMsg: n}}}
 }
 func (w *world) rInit(dst int) reqSpec {
@@ -1156,9 +1181,16 @@ func (w *world) oracle(st sigsrv.VerifSnapshot) {
 				if !curOpen || !ok {
 					w.fail("C22", "cross-epoch-ack", fmt.Sprintf("S%d got AckMsg(%d) in epoch open=%v %d without having submitted message %d in that epoch", s.id, r.n, curOpen, curEp, r.n))
 				}
+				// and the partner must have acknowledged it with a request stamped with THIS epoch
+				if curOpen && !w.stamped(s, "ack", r.n, curEp) {
+					w.fail("C22", "cross-epoch-ack", fmt.Sprintf("S%d got AckMsg(%d) in epoch %d but its partner never submitted an ack of %d stamped with epoch %d (an ack of an older epoch was credited)", s.id, r.n, curEp, r.n, curEp))
+				}
 			case 3: // clear n: the message n must have been delivered to this call in the same epoch
 				if !curOpen || !recvInEpoch[r.n] {
 					w.fail("C22", "cross-epoch-clear", fmt.Sprintf("S%d got ClearMsg(%d) in epoch open=%v %d without a RecvMsg %d in that epoch", s.id, r.n, curOpen, curEp, r.n))
+				}
+				if curOpen && !w.stamped(s, "clear", r.n, curEp) {
+					w.fail("C22", "cross-epoch-clear", fmt.Sprintf("S%d got ClearMsg(%d) in epoch %d but its partner never submitted a clear of %d stamped with epoch %d", s.id, r.n, curEp, r.n, curEp))
 				}
 			case 4:
 				key := msgKey(r.m)
@@ -1275,7 +1307,7 @@ type profile struct{ listen, attach, traffic, evil, stateful, detach, badStart, 
 
 var profiles = map[string]profile{
 	"C20": {listen: 1, attach: 5, traffic: 8, evil: 6, stateful: 6, detach: 2, badStart: 2, gate: 2},
-	"C22": {listen: 1, attach: 8, traffic: 7, evil: 2, stateful: 2, detach: 5, badStart: 1, gate: 3},
+	"C22": {listen: 1, attach: 8, traffic: 7, evil: 5, stateful: 2, detach: 5, badStart: 1, gate: 3},
 	"C24": {listen: 6, attach: 8, traffic: 1, evil: 1, stateful: 0, detach: 6, badStart: 1, gate: 4},
 	"C25": {listen: 6, attach: 7, traffic: 2, evil: 2, stateful: 1, detach: 7, badStart: 1, gate: 4},
 }
@@ -1289,6 +1321,19 @@ func (w *world) lastRecv(s *scall) (uint64, bool) {
 		}
 	}
 	return 0, false
+}
+
+// olderEpoch: one of the epochs before the current one, the most recent ones more often.
+func (w *world) olderEpoch(s *scall) uint64 {
+	ep, _ := w.epochOf(s)
+	if ep == 0 {
+		return 0
+	}
+	d := uint64(1 + w.rng.Intn(3))
+	if d > ep {
+		d = ep
+	}
+	return ep - d
 }
 
 func (w *world) seqFor(s *scall, style int) uint64 {
@@ -1462,11 +1507,23 @@ func (w *world) script(nops int, pf profile) {
 				w.sessReq(s, w.seqFor(s, 0), rClear(uint64(w.rng.Intn(4))))
 				w.c.Class("op-clear-unsolicited")
 			case 6:
-				w.sessReq(s, w.seqFor(s, 1+w.rng.Intn(2)), rAck(uint64(w.rng.Intn(4))))
-				w.c.Class("op-ack-wrong-epoch")
+				if n, ok := w.lastRecv(s); ok && w.rng.Intn(2) == 0 {
+					// a delayed ack of the message currently held, stamped with an older epoch
+					// (message seqnos restart after a re-open, so the seqno may match again)
+					w.sessReq(s, w.olderEpoch(s), rAck(n))
+					w.c.Class("op-ack-received-stale-tag")
+				} else {
+					w.sessReq(s, w.seqFor(s, 1+w.rng.Intn(2)), rAck(uint64(w.rng.Intn(4))))
+					w.c.Class("op-ack-wrong-epoch")
+				}
 			case 7:
-				w.sessReq(s, w.seqFor(s, 1+w.rng.Intn(2)), rClear(uint64(w.rng.Intn(4))))
-				w.c.Class("op-clear-wrong-epoch")
+				if s.lastSent != nil && w.rng.Intn(2) == 0 {
+					w.sessReq(s, w.olderEpoch(s), rClear(s.lastSent.seqno))
+					w.c.Class("op-clear-sent-stale-tag")
+				} else {
+					w.sessReq(s, w.seqFor(s, 1+w.rng.Intn(2)), rClear(uint64(w.rng.Intn(4))))
+					w.c.Class("op-clear-wrong-epoch")
+				}
 			case 8:
 				if w.rng.Intn(2) == 0 {
 					w.sessReq(s, w.seqFor(s, 0), rUnknown())
@@ -1924,6 +1981,26 @@ func fixed(c *hx.Ctx) {
 		w.sessReq(a, w.seqFor(a, 0), w.rSend(w.newMsg(0, "spoofed-pk", 2)))
 		w.c.Class("fixed-pubkey")
 		w.finish(false)
+	}
+	// message seqnos restart across a re-open; acks/clears stamped with each older epoch arrive after the
+	// new epoch's message with the same seqno was delivered: they must not be credited
+	{
+		w := newWorld(c, 3)
+		a := w.sessStart(0, 0, w.rInit(1), 1, true)
+		b := w.sessStart(1, 0, w.rInit(0), 0, true)
+		w.sessReq(b, w.seqFor(b, 0), w.rSend(w.newMsg(1, "good", 1))) // #1 delivered to a in epoch 2
+		b2 := w.sessStart(1, 0, w.rInit(0), 0, true)                   // b re-attaches over its registered call: epoch 3
+		w.sessReq(b2, w.seqFor(b2, 0), w.rSend(w.newMsg(1, "good", 1))) // a new message re-using seqno 1, delivered in epoch 3
+		w.sessReq(a, 2, rAck(1))                                       // the delayed ack of epoch 2
+		w.sessReq(a, 1, rAck(1))
+		w.sessReq(a, w.seqFor(a, 0), rAck(1)) // the real ack
+		w.sessReq(a, w.seqFor(a, 0), w.rSend(w.newMsg(0, "good", 1)))
+		a2 := w.sessStart(0, 0, w.rInit(1), 1, true) // epoch 4
+		w.sessReq(a2, w.seqFor(a2, 0), w.rSend(w.newMsg(0, "good", 1)))
+		w.sessReq(a2, 3, rClear(1)) // delayed clear of epoch 3 for the same seqno
+		w.sessReq(a2, w.seqFor(a2, 0), rClear(1))
+		w.c.Class("fixed-seqno-restart")
+		w.finish(true)
 	}
 	// malicious client
 	{
